@@ -1,35 +1,157 @@
-"""C18 — a PT2-compiled step computes the same update as the eager step.   (level: exploration — bounded stand-in ONLY)
+"""C18 — a PT2-compiled step computes the same update as the eager step.   (level: other)
 
-The compiled callable is produced by Dynamo/AOT at run time: it is not source text, so no proof obligation can be generated
-from /repo for it, and Dynamo's own correctness is an external assumption.  What this check does is evaluate the SAME step
-contract as C01 at run time on `self._per_group_step` built with the `eager` and `aot_eager` backends (static and dynamic shape
-modes): after every step the compiled optimizer's parameters and checkpointable state must equal (a) the uncompiled
-optimizer's, bitwise, and (b) the float64 reference interpreter of the documented algorithm (the C01 contract), across the
-warm-up switch, refresh steps and gradient-presence changes that force recompilation.  Nothing here is counted as proved.
+The compiled callable is produced by Dynamo/AOT at run time: it is not source text, so no obligation can be generated from /repo
+for the artefact itself, and Dynamo's correctness is an external (trusted) contract:
+
+    [D]  torch.compile(f, backend preserving eager numerics) is extensionally the Python function f, executed with the
+         "am I being traced" predicates (torch.compiler.is_compiling & co.) answering True, except inside callees decorated
+         with torch.compiler.disable, which run eagerly (predicates answer False); guards and recompilation are correct.
+
+Under [D] the property reduces to obligations on the REAL code, which this check discharges deductively (engine E2):
+
+  * wiring  — `_instantiate_per_group_step` hands exactly the bound `self._per_group_step_impl` to `torch.compile` with the user's
+              backend, and installs either that result or the uncompiled bound method;
+  * mode-independence — the traced region (`_per_group_step_impl` and everything it calls that is not compiler-disabled:
+              the six helpers, `update_preconditioners` of both Shampoo list classes, the grafting lists, `update_params`)
+              satisfies the SAME functional contract (C01 / C03 post-state = documented recurrence, observed where a step ends)
+              whether the predicates answer True or False: they are answered by ONE symbolic boolean per run, so a path that asks
+              forks and every obligation is discharged for both answers.  Code that never asks (the unchanged tree) generates
+              exactly the C01/C03 obligations.
+  Equality with one mode-independent specification in both modes gives compiled == eager for parameters and state.
+
+Bounded stand-in (labelled, never counted as proved): the real compiled optimizer (`eager`, `aot_eager` backends; static and
+dynamic shapes) vs the uncompiled optimizer, bitwise, and vs the float64 reference interpreter, across the warm-up switch, refresh
+steps and gradient-presence changes that force recompilation.
 """
 from __future__ import annotations
 
 import random
 
 PROP = "C18"
-LEVEL = "exploration"
+LEVEL = "other"
 FUNCS = [
     ("distributed_shampoo/distributed_shampoo.py", "DistributedShampoo._instantiate_per_group_step"),
     ("distributed_shampoo/distributed_shampoo.py", "DistributedShampoo._per_group_step_impl"),
+    ("distributed_shampoo/distributed_shampoo.py", "DistributedShampoo._add_l2_regularization"),
+    ("distributed_shampoo/distributed_shampoo.py", "DistributedShampoo._update_preconditioners"),
+    ("distributed_shampoo/distributed_shampoo.py", "DistributedShampoo._compute_filtered_grad_list"),
     ("distributed_shampoo/distributed_shampoo.py", "DistributedShampoo._precondition_and_grafting"),
+    ("distributed_shampoo/distributed_shampoo.py", "DistributedShampoo._apply_decoupled_weight_decay"),
+    ("distributed_shampoo/distributed_shampoo.py", "DistributedShampoo._update_momentum"),
+    ("distributed_shampoo/utils/shampoo_preconditioner_list.py", "BaseShampooPreconditionerList.update_preconditioners"),
+    ("distributed_shampoo/utils/shampoo_preconditioner_list.py", "EigenvalueCorrectedShampooPreconditionerList.update_preconditioners"),
     ("distributed_shampoo/utils/shampoo_preconditioner_list.py", "ShampooPreconditionerList._amortized_computation"),
+    ("distributed_shampoo/utils/shampoo_preconditioner_list.py", "EigenvalueCorrectedShampooPreconditionerList._amortized_computation"),
+    ("distributed_shampoo/utils/shampoo_preconditioner_list.py", "ShampooPreconditionerList.precondition"),
+    ("distributed_shampoo/utils/shampoo_preconditioner_list.py", "EigenvalueCorrectedShampooPreconditionerList.precondition"),
+    ("distributed_shampoo/utils/shampoo_distributor.py", "Distributor.update_params"),
 ]
-TRUSTED = ["Dynamo / AOTAutograd (external); only the eager and aot_eager backends (numerics-preserving) are exercised; inductor is out of scope"]
-ASSUMPTIONS = ["bounded: seeded configurations covering every branch of the group step, 6 steps, both backends, static and dynamic shape modes"]
-EXPLANATION = "run-time evaluation of the C01 step contract on the compiled callable (bounded stand-in, no obligations)"
+TRUSTED = [
+    "[D] Dynamo / AOTAutograd (external): the compiled callable is the traced Python function with is_compiling() == True outside torch.compiler.disable'd callees; guards / recompilation correct; only numerics-preserving backends (eager, aot_eager) are in the property's premise — inductor is out of scope",
+    "the trusted base of C01 / C03 (real arithmetic, torch-op contracts, generic blocks) carries over to the mode-independence obligations",
+]
+ASSUMPTIONS = ["bounded tier: seeded configurations covering every branch of the group step, 6 steps, both backends, static and dynamic shape modes"]
+EXPLANATION = "under the Dynamo contract [D]: wiring of torch.compile + the C01/C03 step contracts discharged with the tracing predicate symbolic (both answers); the compiled artefact itself is compared with eager at run time (bounded)"
+
+_EAGER = {}
+
+
+def precondition_runs_eagerly():
+    """True iff, on the current source, every `.precondition(` call of DistributedShampoo sits inside `_precondition_and_grafting`
+    and that method is (still) torch.compiler.disable'd — then the list classes' precondition() never runs under tracing."""
+    if "v" in _EAGER:
+        return _EAGER["v"]
+    import ast
+    import distributed_shampoo.distributed_shampoo as ds
+    ok = bool(getattr(ds.DistributedShampoo._precondition_and_grafting, "_torchdynamo_disable", False))
+    tree = ast.parse(open(ds.__file__).read())
+    for cls in tree.body:
+        if isinstance(cls, ast.ClassDef) and cls.name == "DistributedShampoo":
+            for fn in cls.body:
+                if isinstance(fn, ast.FunctionDef) and fn.name != "_precondition_and_grafting":
+                    for node in ast.walk(fn):
+                        if isinstance(node, ast.Call) and isinstance(node.func, ast.Attribute) and node.func.attr == "precondition":
+                            ok = False
+    _EAGER["v"] = ok
+    return ok
 
 
 def cases(tier):
-    return []
+    from checks import c01, plist
+    cs = ["wiring/compile"]
+    cs += ["mode/" + c for c in c01.cases(tier) if c.startswith("group_step/")]
+    pl = plist.shampoo_cases(tier) + plist.eig_cases(tier)
+    if tier == "quick":
+        pl = [c for c in pl if c.split("/")[2] in ("o0", "o1", "o2")]
+    cs += ["mode/" + c for c in pl]
+    return cs
+
+
+def _wiring_case(case):
+    import distributed_shampoo.distributed_shampoo as ds
+    from distributed_shampoo import shampoo_types as st
+    from vlib.driver import result
+    from vlib.tensor import FakeTorch, rebind
+    func = "DistributedShampoo._instantiate_per_group_step"
+    out = []
+    impl = ds.DistributedShampoo._per_group_step_impl
+    for label, cfg in (("none", None), ("aot_eager", st.ShampooPT2CompileConfig(pytorch_compile_backend="aot_eager", enable_shampoo_pt2_dynamic_shape=False)),
+                       ("eager-dynamic", st.ShampooPT2CompileConfig(pytorch_compile_backend="eager", enable_shampoo_pt2_dynamic_shape=True)),
+                       ("opaque-backend", st.ShampooPT2CompileConfig(pytorch_compile_backend="<any backend string>", enable_shampoo_pt2_dynamic_shape=None))):
+        calls = []
+
+        class FT(FakeTorch):
+            def compile(self, model=None, **kw):
+                calls.append((model, kw))
+                return ("compiled", len(calls))
+
+        opt = object.__new__(ds.DistributedShampoo)
+        ft = FT()
+        try:
+            with rebind([(ds, "torch", ft)]):
+                opt._instantiate_per_group_step(cfg)
+        except BaseException as e:  # noqa
+            out.append(result(f"{func}/no-exception[{label}]", func, "unknown" if type(e).__name__ == "ShadowAbort" else "violated", text=f"{type(e).__name__}: {e}", case=case))
+            continue
+        got = getattr(opt, "_per_group_step", None)
+
+        def rp(f):
+            return f"bound {getattr(getattr(f, '__func__', None), '__qualname__', '?')}" if hasattr(f, "__self__") else repr(f)
+
+        def is_impl(f):
+            return getattr(f, "__self__", None) is opt and getattr(f, "__func__", None) is impl
+
+        if cfg is None:
+            ok = is_impl(got) and not calls
+            out.append(result(f"{func}/uncompiled-step-is-the-implementation[{label}]", func, "discharged" if ok else "violated", backend="structure", case=case,
+                              text="without a PT2 config the per-group step IS the bound _per_group_step_impl and torch.compile is not called",
+                              replay=dict(kind="compiled-grid"), model=dict(installed=rp(got), compile_calls=len(calls))))
+        else:
+            ok = len(calls) == 1 and is_impl(calls[0][0]) and calls[0][1].get("backend") == cfg.pytorch_compile_backend and got == ("compiled", 1)
+            out.append(result(f"{func}/compiles-the-implementation-with-the-configured-backend[{label}]", func, "discharged" if ok else "violated", backend="structure", case=case,
+                              text="torch.compile is called once, on the bound _per_group_step_impl of this optimizer, with the user's backend; its result is installed as the per-group step",
+                              replay=dict(kind="compiled-grid"), model=dict(installed=rp(got), compile_calls=[(rp(f), {k: repr(v) for k, v in kw.items()}) for f, kw in calls])))
+    out.append(result(f"{func}/cover:precondition-region[{case}]", func, "violated", kind="cover", case=case,
+                      text=f"precondition() runs eagerly (inside the compiler-disabled _precondition_and_grafting): {precondition_runs_eagerly()}"))
+    return out
 
 
 def run_case(case, tier, seed):
-    return []
+    from vlib.tensor import compile_mode
+    if case == "wiring/compile":
+        return _wiring_case(case)
+    sub = case[len("mode/"):]
+    if sub.startswith("group_step/"):
+        from checks import c01
+        with compile_mode("sym"):
+            res = c01._group_step_case(sub, tier)
+    else:
+        from checks import plist
+        res = plist.run_list_case(sub, tier, PROP)
+    for r in res:
+        if isinstance(r.get("replay"), dict) or r.get("replay") is None:
+            r["replay"] = dict(kind="compiled-grid", soap=sub.startswith("plist/eig"))
+    return res
 
 
 def _configs(tier, seed):
@@ -143,6 +265,20 @@ def replay(r):
 
 def replay_file(doc):
     rp = doc.get("replay_input") or {}
+    if rp.get("kind") == "compiled-grid":
+        # a failed mode-independence / wiring obligation: run the real compiled optimizer against the eager one on the branch-cover grid
+        if "grid" in _EAGER:
+            return _EAGER["grid"]
+        bads = []
+        for ci, cfg in enumerate(_configs("quick", 1)[:6]):
+            try:
+                bad = native_compiled(cfg, "aot_eager", False, 100 + ci)
+            except BaseException as e:  # noqa
+                bad = f"raised {type(e).__name__}: {str(e)[:300]}"
+            if bad:
+                bads.append(f"cfg{ci} {dict((k, str(v)) for k, v in cfg.items())}: {bad}")
+        _EAGER["grid"] = (bool(bads), "; ".join(bads[:2]) or "compiled (aot_eager) == eager bitwise on the six branch-cover configurations")
+        return _EAGER["grid"]
     if rp.get("kind") == "compiled":
         cfg = _configs(rp.get("tier", "quick"), rp["seed"])[rp["ci"]]
         bad = native_compiled(cfg, rp["backend"], rp["dyn"], rp["seed"] * 100 + rp["ci"])
